@@ -229,7 +229,7 @@ func runC16(r *Run) {
 	rr := r.Rng
 	n := 500
 	if r.Thorough() {
-		n = 5000
+		n = 20000
 	}
 	entries := []string{"VueRender", "VueFragment", "LoadRender", "RenderFile", "RenderString"}
 	for c := 0; c < n; c++ {
